@@ -25,7 +25,7 @@ type Action struct {
 func (a Action) String() string {
 	s := fmt.Sprintf("%s(%d", a.K, a.A)
 	switch a.K {
-	case "G", "P", "J", "Start":
+	case "G", "P", "J", "Start", "FF":
 		s += fmt.Sprintf(",%d", a.B)
 	}
 	if a.Lim > 0 {
@@ -123,7 +123,14 @@ func Do(c *sim.Cluster, a Action) error {
 		}
 		return c.JoinAccepted(a.A, r)
 	case "FF":
+		if a.B > 0 {
+			return c.FastForward(a.A, &sim.Plan{FFFrom: a.B})
+		}
 		return c.FastForward(a.A, nil)
+	case "Crash":
+		return c.Crash(a.A)
+	case "Restart": // Lim&1: fast-sync, Lim&2: bootstrap from its store
+		return c.Restart(a.A, a.Lim&2 != 0, a.Lim&1 != 0)
 	case "CS":
 		return c.CheckSuspend(a.A)
 	case "N":
